@@ -325,7 +325,9 @@ def programs(tier):
         for table in ('element', 'connection'):
             a = (lf, tuple(forms[(k + j) % 3] for j in range(NF)), '') + (() if table == 'element' else (table,))
             if a not in LAYOUTS: extra.append(a)
-    return PROGRAMS + [('p_layout', a) for a in extra] + [('p_table_whole_autough2', ((('E3', 'N3', 'E2'), ALL_E2), (('E2', 'E3', 'N3'), ('N3', 'E2', 'E3'))))]
+    whole = [((('E2', 'E3', 'N3'), ('N3', 'N3', 'E2')), (('E3', 'E3', 'E3'), ('N3', 'N3', 'N3')), 'connection'), ((('E3', 'N3', 'E3'), ALL_E2), (('N3', 'E2', 'N3'), ('E3', 'E2', 'E3')), 'element'),
+             ((ALL_E2, ALL_E2), (ALL_E2, ALL_E2), 'connection')]
+    return PROGRAMS + [('p_layout', a) for a in extra] + [('p_table_whole', a) for a in whole] + [('p_table_whole_autough2', ((('E3', 'N3', 'E2'), ALL_E2), (('E2', 'E3', 'N3'), ('N3', 'E2', 'E3'))))]
 
 
 def replay(obname, model, result):
